@@ -41,6 +41,9 @@ pub fn send_raw(addr: &str, prep: &Prepared) -> std::thread::Result<RawResult> {
         if let Some(ct) = &prep.ct_val {
             head.extend_from_slice(format!("Content-Type: {ct}\r\n").as_bytes());
         }
+        for (n, v) in &prep.extra {
+            head.extend_from_slice(format!("{n}: {v}\r\n").as_bytes());
+        }
         let chunked = (prep.chunks.len() > 1 || prep.broken) && !prep.http10;
         if chunked {
             head.extend_from_slice(b"Transfer-Encoding: chunked\r\n\r\n");
@@ -119,6 +122,9 @@ pub fn send_keepalive(s: &mut TcpStream, addr: &str, prep: &Prepared) -> Option<
     }
     if let Some(ct) = &prep.ct_val {
         head.extend_from_slice(format!("Content-Type: {ct}\r\n").as_bytes());
+    }
+    for (n, v) in &prep.extra {
+        head.extend_from_slice(format!("{n}: {v}\r\n").as_bytes());
     }
     let body: Vec<u8> = prep.chunks.concat();
     head.extend_from_slice(format!("Content-Length: {}\r\n\r\n", body.len()).as_bytes());
